@@ -38,6 +38,7 @@ from happysimulator.faults import (  # noqa: E402
     InjectPacketLoss,
     NetworkPartition,
     PauseNode,
+    RandomPartition,
     ReduceCapacity,
 )
 
@@ -52,6 +53,8 @@ def sec_to_ns(seconds: float) -> int:
 
 
 def fault_window_ns(f: dict) -> tuple[int, int]:
+    if f["type"] == "RandomPartition":  # no window of its own: live from the start for the whole run
+        return 0, INF
     s = sec_to_ns(f["start_ms"] / 1000.0)
     e = INF if f.get("end_ms") is None else sec_to_ns(f["end_ms"] / 1000.0)
     return s, e
@@ -226,6 +229,8 @@ class Worker(Entity):
 
 def _mk_fault(f: dict):
     t = f["type"]
+    if t == "RandomPartition":
+        return RandomPartition(nodes=list(f["nodes"]), mtbf=f["mtbf_ms"] / 1000.0, mttr=f["mttr_ms"] / 1000.0, seed=f["seed"])
     s = f["start_ms"] / 1000.0
     e = None if f.get("end_ms") is None else f["end_ms"] / 1000.0
     if t == "CrashNode":
@@ -379,14 +384,17 @@ def execute(case: dict, faults: list | None = None) -> dict:
     interesting = {f"{n}.worker" for n in queued}
 
     def flt(ev):
-        return getattr(ev.target, "name", None) in interesting
+        return getattr(ev.target, "name", None) in interesting or ev.event_type.startswith("fault.random_partition.")
 
     with EngineProbe(log_deliveries=True, instant_cap=20000, total_cap=400000, delivery_filter=flt) as p:
         status = p.run(sim)
     obs["status"] = status
     obs["n_deliveries"] = p.n_deliveries
+    obs["random_partition_events"] = [(d[1], d[2].rsplit(".", 1)[-1]) for d in p.deliveries if d[2].startswith("fault.random_partition.")]
     for d in p.deliveries:
         # (now_ns, t_ns, type, target, is_cont, crashed, sort_index)
+        if d[2].startswith("fault.random_partition."):
+            continue
         obs["worker_deliveries"].setdefault(d[3][: -len(".worker")], []).append((d[1], bool(d[4]), d[2]))
 
     # ---- final public state
